@@ -139,6 +139,12 @@ TraceAccepted ==
       ELSE PrintT("@@REJECT " \o ToJson([line |-> n, of |-> N, last |-> TLCGet(2),
                                             event |-> IF n \in 1..N THEN Rec[n] ELSE [ev |-> "none"]]))
 
+(* The properties along the trace, as reporting predicates (always TRUE): a
+   violated one prints the line being consumed instead of a counterexample
+   (which, for concatenated histories, would be the whole file again). *)
+ReportFresh     == Fresh \/ PrintT("@@BAD " \o ToJson([inv |-> "Fresh", l |-> l]))
+ReportCrashSafe == CrashSafe \/ PrintT("@@BAD " \o ToJson([inv |-> "CrashSafe", l |-> l]))
+
 (* last matched state, for the rejection report (always TRUE) *)
 ReportState == (l = TLCGet(1)) =>
                  TLCSet(2, [l |-> l, pc |-> pc, src |-> src, out |-> out, tmp |-> tmp, touched |-> touched])
